@@ -75,12 +75,12 @@ pub fn one_scenario(rep: &Report, idx: usize, sc: &Scenario, keep: bool) -> Opti
                     PendPlan::Every(6),
                 )));
                 let log = rr.log.clone();
-                (log, rt.block_on(crate::lib_drv::clone_with(rr, &seeds, 3, out, uses_prior)))
+                (log, crate::util::catch(|| rt.block_on(crate::lib_drv::clone_with(rr, &seeds, 3, out, uses_prior))).and_then(|x| x))
             } else {
                 let server = Server::start(archive.clone(), httpd::well_behaved());
                 let rr = RecReader::new(crate::lib_drv::http_reader(&server.url(), 0)?);
                 let log = rr.log.clone();
-                let r = rt.block_on(crate::lib_drv::clone_with(rr, &seeds, 3, out, uses_prior));
+                let r = crate::util::catch(|| rt.block_on(crate::lib_drv::clone_with(rr, &seeds, 3, out, uses_prior))).and_then(|x| x);
                 (log, r)
             };
             rep.eval();
